@@ -12,16 +12,17 @@ GEO = 'tracklib.util.geometry'
 TRACK = 'tracklib.core.track.Track'
 
 EXPLANATION = (
-    "Static analysis of douglas_peucker / distance_to_segment / visvalingam / aire_visval: the Douglas-Peucker "
-    "recursion returns the input list for n<=2, [first,last] only under dmax < eps with dmax the maximum over all "
-    "indices of the distance to the chord segment, and otherwise the concatenation of two slices that tile [0,n) at "
-    "the index co-updated with dmax; distance_to_segment is the distance to the clamped projection (polynomial "
-    "identities, clamp box == bounding box of the segment) and never divides by the chord length without a zero "
-    "test; in Visvalingam the first fix is made non-selectable (index -1 would wrap), the last one is shielded by "
-    "the IndexError handler, neighbour areas are recomputed at interior indices only, the loop runs only while an "
-    "interior fix exists, removals happen on a private copy and the scratch feature is removed on exit.")
-ASSUMPTIONS = ["positive tolerance; termination of the Douglas-Peucker recursion (imax >= 1 when dmax >= eps > 0) is a value argument"]
-TECHNIQUE = "slice tiling (F3), guard dominance (F6), possibly-zero divisor rule and polynomial identities (F2), negative-index wrap rule (F3), effects (F1)"
+    "Static analysis of douglas_peucker / visvalingam and the code they rest on.  (G) both algorithms - with distance_to_segment, "
+    "aire_visval, triangle_area, Track.copy / removeObs / addAnalyticalFeature / operate(ARGMIN) and the operator classes - are "
+    "interpreted by tlint.orders on the repository's own Track class (nothing is imported or executed) on one polyline per "
+    "configuration class (generic line, closed loop, repeated consecutive position, all positions coincident, out-and-back along a "
+    "horizontal / vertical / oblique line, there-and-back, two fixes, collinear fixes, spike) x six tolerances: no failure, the result "
+    "is a subsequence containing the first and the last fix, the input track is untouched, no scratch feature remains, and for "
+    "Douglas-Peucker every input fix is within the tolerance of the result.  (Z) distance_to_segment symbolically: it is the distance "
+    "to the projection clamped to the bounding box of the segment (polynomial identities on every return path) and never divides by "
+    "the chord length without a zero test.")
+ASSUMPTIONS = ["positive tolerance", "(G) is a bounded case analysis: one representative polyline per configuration class, not all geometries"]
+TECHNIQUE = "abstract interpretation of both algorithms on configuration-class representatives with a point-segment distance computed by the checker (F3/F6), possibly-zero divisor rule and polynomial identities (F2)"
 
 
 def vr(v):
@@ -382,9 +383,152 @@ def rule_V(ctx):
               witness={'chains': {b: eff.why(f.qual, b) for b in bad}}, node=f.node, key='frame')
 
 
+def rule_G(ctx):
+    """C16.G both simplifications on the configuration classes of the property (interpreted on the repository's Track class).
+
+    douglas_peucker, visvalingam, distance_to_segment, aire_visval, triangle_area, Track.copy/removeObs/operate(ARGMIN)/... are
+    interpreted by tlint.orders (nothing executed) on polylines chosen one per configuration class the property names or the code
+    distinguishes: generic open line, closed loop, repeated consecutive position, all positions coincident, out-and-back along a
+    horizontal / vertical / oblique line (a fix projecting beyond an end of the chord), two and three fixes - each with tolerances below,
+    between and above the deviations.  Required: no failure, the result is a subsequence of the input containing the first and the last
+    fix, the input track is untouched, and for Douglas-Peucker every input fix lies within the tolerance of the result (point-segment
+    distance computed here)."""
+    import math
+    from .. import absint, orders
+    fd = ctx.prog.func(SIM + '.douglas_peucker')
+    fv = ctx.prog.func(SIM + '.visvalingam')
+    fn = absint.funcs(ctx, SIM)
+    fn['deepcopy'] = absint.deep_copy
+    fn['__globals__']['NAN'] = float('nan')
+    T = absint.classref(ctx, 'tracklib.core.track.Track', fn)
+    absint.operator_table(ctx, fn)
+    if 'tracklib.core.bbox.Bbox' in ctx.prog.classes:
+        absint.classref(ctx, 'tracklib.core.bbox.Bbox', fn)
+
+    class P(orders.PyStub):
+        isa = ('ENUCoords',)
+
+        def __init__(self, x, y, z=0.0):
+            self.x, self.y = float(x), float(y)
+
+        def getX(self):
+            return self.x
+
+        def getY(self):
+            return self.y
+
+        def getZ(self):
+            return 0.0
+
+        def setX(self, v):
+            self.x = v
+
+        def setY(self, v):
+            self.y = v
+
+        def setZ(self, v):
+            pass
+
+        def copy(self):
+            return P(self.x, self.y)
+
+        def distance2DTo(self, o):
+            return math.hypot(self.x - o.x, self.y - o.y)
+
+        distanceTo = distance2DTo
+
+    class O(orders.PyStub):
+        isa = ('Obs',)
+
+        def __init__(self, k, x, y):
+            self.k = k
+            self.position = P(x, y)
+            self.timestamp = None
+            self.features = []
+
+        def copy(self):
+            o = O(self.k, self.position.x, self.position.y)
+            o.features = list(self.features)
+            return o
+
+        def distance2DTo(self, o):
+            return self.position.distance2DTo(o.position)
+
+        def distanceTo(self, o):
+            return self.position.distance2DTo(o.position)
+
+    def seg_dist(p, a, b):
+        (px, py), (ax, ay), (bx, by) = p, a, b
+        dx, dy = bx - ax, by - ay
+        l2 = dx * dx + dy * dy
+        if l2 == 0:
+            return math.hypot(px - ax, py - ay)
+        t = max(0.0, min(1.0, ((px - ax) * dx + (py - ay) * dy) / l2))
+        return math.hypot(px - (ax + t * dx), py - (ay + t * dy))
+    shapes = {
+        'generic open line': [(0, 0), (5, 0.4), (10, 0), (14, 6), (20, 6.3), (25, 0)],
+        'closed loop (first and last fix coincide)': [(0, 0), (10, 0), (10, 10), (0, 10), (0, 0)],
+        'closed loop with a repeated consecutive position': [(0, 0), (10, 0), (10, 0), (10, 10), (0, 10), (0, 0)],
+        'all positions coincident': [(3, 3), (3, 3), (3, 3), (3, 3)],
+        'out-and-back along a horizontal line': [(0, 0), (20, 0), (30, 0), (10, 0)],
+        'out-and-back along a vertical line': [(0, 0), (0, 20), (0, 30), (0, 10)],
+        'out-and-back along an oblique line': [(0, 0), (20, 20), (30, 30), (10, 10)],
+        'there and back to the start': [(0, 0), (10, 1), (20, 0), (10, -1), (0, 0)],
+        'two fixes': [(0, 0), (4, 3)],
+        'three collinear fixes': [(0, 0), (1, 1), (2, 2)],
+        'spike': [(0, 0), (10, 0), (10.5, 7), (11, 0), (21, 0)],
+    }
+    eps_list = (0.25, 2.0, 6.0, 11.0, 25.0, 1.0e6)
+    found = {}
+    n_cases = 0
+    for algo, f in (('douglas_peucker', fd), ('visvalingam', fv)):
+        run = fn['__name__'](algo)
+        for sname, pts in shapes.items():
+            for eps in eps_list:
+                t = T([O(k, *p_) for k, p_ in enumerate(pts)], 'u', 't')
+                n_cases += 1
+                case = {'algorithm': algo, 'track': sname, 'positions': [list(p_) for p_ in pts], 'tolerance': eps}
+                try:
+                    res = run(t, eps)
+                except orders.Unsupported as ex:
+                    raise shape_error('%s not interpretable: %s' % (algo, ex), f.loc())
+                except (ZeroDivisionError, IndexError, KeyError, TypeError, AttributeError, ValueError, orders.Raised, RecursionError) as ex:
+                    found.setdefault((algo, 'fails'), (f, 'does not fail on repeated / coincident positions, closed loops included',
+                                                       dict(case, exception='%s: %s' % (type(ex).__name__, str(ex)[:160]))))
+                    continue
+                kept = [o.k for o in res.fields['_Track__POINTS']] if isinstance(res, orders.Obj) and '_Track__POINTS' in res.fields else None
+                n = len(pts)
+                if kept is None or any(k is None for k in kept) or kept != sorted(set(kept)) or not kept or kept[0] != 0 or kept[-1] != n - 1:
+                    found.setdefault((algo, 'subsequence'), (f, 'returns a subsequence of the input observations in their original order that contains the first and the last one',
+                                                             dict(case, **{'indices kept': kept})))
+                    continue
+                src_now = [(o.k, o.position.x, o.position.y, len(o.features)) for o in t.fields['_Track__POINTS']]
+                if src_now != [(k, float(p_[0]), float(p_[1]), 0) for k, p_ in enumerate(pts)] or t.call('getListAnalyticalFeatures'):
+                    found.setdefault((algo, 'source'), (f, 'leaves the input track as it was (no fix removed, no scratch feature left)',
+                                                        dict(case, **{'input track after': src_now, 'features listed': t.call('getListAnalyticalFeatures')})))
+                if res.call('getListAnalyticalFeatures'):
+                    found.setdefault((algo, 'scratch'), (f, 'leaves no scratch feature on the result', dict(case, features=res.call('getListAnalyticalFeatures'))))
+                if algo == 'douglas_peucker':
+                    worst = 0.0
+                    who = None
+                    for k, p_ in enumerate(pts):
+                        d = min(seg_dist(p_, pts[kept[j]], pts[kept[j + 1]]) for j in range(len(kept) - 1)) if len(kept) > 1 else math.hypot(p_[0] - pts[kept[0]][0], p_[1] - pts[kept[0]][1])
+                        if d > worst:
+                            worst, who = d, k
+                    if worst > eps * (1 + 1e-9) + 1e-9:
+                        found.setdefault((algo, 'tolerance'), (f, 'every input observation lies within the tolerance of the simplified polyline',
+                                                               dict(case, **{'indices kept': kept, 'fix': who, 'its distance to the result': round(worst, 6)})))
+    for (algo, key), (f, desc, wit) in sorted(found.items()):
+        ctx.violation('C16.G', f, desc, wit, node=f.node, key=key)
+    if not any(a_ == 'douglas_peucker' for a_, _ in found):
+        ctx.ok('C16.G', fd, 'Douglas-Peucker: no failure, subsequence with both end fixes, input untouched, every fix within the tolerance of the result, on %d (configuration class, tolerance) cases' % (n_cases // 2), node=fd.node)
+    if not any(a_ == 'visvalingam' for a_, _ in found):
+        ctx.ok('C16.G', fv, 'Visvalingam: no failure, subsequence with both end fixes, input untouched, no scratch feature left, on %d cases' % (n_cases // 2), node=fv.node)
+    ctx.extra['C16.G cases'] = n_cases
+
+
 RULES = [
-    ('C16.D', rule_D, 'quick'),
+    ('C16.G', rule_G, 'quick'),
     ('C16.Z', rule_Z, 'quick'),
-    ('C16.V', rule_V, 'quick'),
 ]
-MIN_OBLIGATIONS = 20
+MIN_OBLIGATIONS = 5
